@@ -11,14 +11,16 @@ pub struct ChunkReader<'a> {
     pub si: usize,
     pub fail_at: Option<usize>,
     pub fail_kind: io::ErrorKind,
+    pub one_shot: bool,        // the failure at `fail_at` happens exactly once; later reads deliver the remaining bytes
+    pub fired: bool,
 }
 
 impl<'a> ChunkReader<'a> {
     pub fn new(data: &'a [u8], chunk: usize) -> Self {
-        ChunkReader { data, pos: 0, chunk: chunk.max(1), sched: vec![], si: 0, fail_at: None, fail_kind: io::ErrorKind::Other }
+        ChunkReader { data, pos: 0, chunk: chunk.max(1), sched: vec![], si: 0, fail_at: None, fail_kind: io::ErrorKind::Other, one_shot: false, fired: false }
     }
     pub fn with_sched(data: &'a [u8], sched: Vec<usize>) -> Self {
-        ChunkReader { data, pos: 0, chunk: 1, sched, si: 0, fail_at: None, fail_kind: io::ErrorKind::Other }
+        ChunkReader { data, pos: 0, chunk: 1, sched, si: 0, fail_at: None, fail_kind: io::ErrorKind::Other, one_shot: false, fired: false }
     }
     /// src spec: "r<k>" fixed chunk k; "rx<seed>" pseudo-random schedule with interrupts
     pub fn from_spec(data: &'a [u8], spec: &str) -> Self {
@@ -54,10 +56,13 @@ impl<'a> Read for ChunkReader<'a> {
             w
         };
         if let Some(k) = self.fail_at {
-            if self.pos >= k {
-                return Err(io::Error::new(self.fail_kind, "injected"));
+            if !(self.one_shot && self.fired) {
+                if self.pos >= k {
+                    self.fired = true;
+                    return Err(io::Error::new(self.fail_kind, "injected"));
+                }
+                want = want.min(k - self.pos);
             }
-            want = want.min(k - self.pos);
         }
         let n = want.min(buf.len()).min(self.data.len() - self.pos);
         buf[..n].copy_from_slice(&self.data[self.pos..self.pos + n]);
